@@ -150,7 +150,9 @@ class Model:
         r = subprocess.run([str(DRIVER)], input=data.encode('utf-8', 'surrogatepass'), capture_output=True)
         if r.returncode != 0:
             raise BrokenCheck(f'model driver exited {r.returncode}: {r.stderr[-2000:]!r}')
-        lines = r.stdout.decode('utf-8').splitlines()
+        lines = r.stdout.decode('utf-8').split('\n')
+        if lines and lines[-1] == '':
+            lines.pop()
         if len(lines) != len(reqs):
             raise BrokenCheck(f'model driver: {len(lines)} replies for {len(reqs)} requests')
         self.calls += len(reqs)
